@@ -62,18 +62,29 @@ class Ctx:
 
     # ------------------------------------------------------------ harness
     def build_harness(self):
+        """The registered checks build the harness against /repo's working tree.  VERIF_REPO points the build at another
+        copy of the library (used only by the mutant campaign, so that seeded changes never touch /repo)."""
         os.makedirs(os.path.join(ROOT, 'bin'), exist_ok=True)
         hd = os.path.join(ROOT, 'harness')
+        repo = os.environ.get('VERIF_REPO', '/repo')
+        self.vhbin = VH
+        if repo != '/repo':
+            hd2 = os.path.join(self.work, 'harness')
+            shutil.copytree(hd, hd2)
+            gm = open(os.path.join(hd2, 'go.mod')).read().replace('=> /repo', '=> ' + repo)
+            open(os.path.join(hd2, 'go.mod'), 'w').write(gm)
+            hd = hd2
+            self.vhbin = os.path.join(self.work, 'vh')
         try:
-            shutil.copy('/repo/go.sum', os.path.join(hd, 'go.sum'))
+            shutil.copy(os.path.join(repo, 'go.sum'), os.path.join(hd, 'go.sum'))
         except OSError:
             pass
-        r = subprocess.run(['go', 'build', '-tags', 'verif', '-o', VH, '.'], cwd=hd, env=GOENV, capture_output=True, text=True)
+        r = subprocess.run(['go', 'build', '-tags', 'verif', '-o', self.vhbin, '.'], cwd=hd, env=GOENV, capture_output=True, text=True)
         if r.returncode != 0:
-            raise Infra('harness does not build against /repo:\n' + r.stderr[-3000:])
+            raise Infra('harness does not build against %s:\n' % repo + r.stderr[-3000:])
 
     def vh(self, *args, timeout=3600):
-        r = subprocess.run([VH] + [str(x) for x in args], cwd=self.work, capture_output=True, text=True, timeout=timeout)
+        r = subprocess.run([self.vhbin] + [str(x) for x in args], cwd=self.work, capture_output=True, text=True, timeout=timeout)
         if r.returncode != 0:
             raise Infra('vh %s failed: %s' % (args[0], r.stderr[-2000:]))
         return r.stdout
